@@ -144,7 +144,7 @@ const CONTENTS: [&str; 5] = ["a", "a  ", "''", "'''", ""];
 const BASES: [&str; 6] = ["", "  ", "    ", "\t", "\u{3000}", " \t"];
 const TERMS: usize = 5;
 const AFTERS: [&str; 3] = [";", ".Trim;", " + 'x';"];
-pub const C12_POSITIONS: usize = 7;
+pub const C12_POSITIONS: usize = 11;
 
 fn line_options() -> usize {
     INDENT_KINDS * CONTENTS.len()
@@ -261,6 +261,13 @@ impl C12Family {
             3 => format!("begin\n  x := 'a' + {lit}{after}\nend;\n"),
             4 => format!("begin\n  x := procedure begin y := {lit}{after} z; end;\nend;\n"),
             5 => format!("begin\n  // pasfmt off\n  x := {lit}{after}\n  // pasfmt on\n  y;\nend;\n"),
+            // two literals in one logical line: a rule-breaking one before the generated one ...
+            7 => format!("begin\n  f('''\n    x\n   y\n    ''', {lit});\nend;\n"),
+            // ... and the generated one before a misplaced valid one
+            8 => format!("begin\n  f({lit}, '''\n        c\n        ''');\nend;\n"),
+            // in a routine header (default value of a parameter; message of a hint directive)
+            9 => format!("procedure P(a: string = {lit});\nbegin\nend;\n"),
+            10 => format!("type T = class\n  procedure M; deprecated {lit};\nend;\n"),
             // the opening quotes start their own line, indented like the closing quotes
             _ => format!("begin\n  x :=\n{base}{lit}{after}\nend;\n"),
         };
